@@ -3,6 +3,9 @@
 #define C02_CAPS_H
 #include "../common/entry_caps.h"
 class P11Attribute; class OSAttribute;
-template<> struct vstl_map_cap<unsigned long, P11Attribute*> { enum { value = 40 }; };   // attributes of a P11 object class (+ unknown template types)
+#ifndef P11MAP_CAP
+#define P11MAP_CAP 40
+#endif
+template<> struct vstl_map_cap<unsigned long, P11Attribute*> { enum { value = P11MAP_CAP }; };   // attributes of a P11 object class (+ unknown template types)
 template<> struct vstl_map_cap<unsigned long, OSAttribute> { enum { value = 2 }; };
 #endif
